@@ -300,11 +300,16 @@ func zzH_C14_two() {
 func zzH_C02_noroute() {
 	c, _ := zzCanary()
 	stranger := net.IPv4(192, 168, 7, zzU8())
-	withRoute := zzBool()
-	if withRoute {
+	switch zzLen(0, 2) {
+	case 1:
 		// a route whose gateway has no ARP entry either
 		_, n, _ := net.ParseCIDR("192.168.0.0/16")
 		c.rt = RouteTable{{Destination: *n, Gateway: net.IPv4(10, 9, 9, 9)}}
+	case 2:
+		// the peer is a neighbour on an interface the sensor does not listen on (the kernel's
+		// ARP table lists the neighbours of every interface of a multi-homed host)
+		stranger = net.IPv4(192, 168, 7, 7)
+		c.ac = append(c.ac, ARPEntry{IP: stranger, HardwareAddress: zzPeerMAC, Interface: "eth9"})
 	}
 	isn := zzU32()
 	msg := zzPanicMsg(func() {
